@@ -17,6 +17,7 @@ type Block struct {
 	Gap   GapSpec    `json:"gap"`
 	Votes []VoteSpec `json:"votes,omitempty"`
 	Ops   []Op       `json:"ops,omitempty"`
+	Idle  int        `json:"idle,omitempty"` // operation-free blocks (1 s apart, honest votes) executed before this block
 }
 
 // GapSpec is a block-time gap; Kind selects a named boundary constant, Ms is used for Kind 0.
